@@ -74,7 +74,8 @@ def snapshot(root):
                 after.append(dict(path=r, kind="file"))
                 if p.read_text() != "content:" + "/".join(r):
                     contents_ok = False
-    walk(d, [])
+    if d.is_dir() and not d.is_symlink():
+        walk(d, [])
     t = root / "targets"
     outside_ok = (t / "tfile").is_file() and (t / "tfile").read_text() == "target-file" and \
         (t / "tdir" / "inner.mmm").is_file() and (t / "tdir" / "inner.mmm").read_text() == "inner" and \
@@ -141,7 +142,7 @@ def run(tier, replay=None):
                 except ValueError:
                     pass
         after, contents_ok, outside_ok = snapshot(root)
-        ob = dict(id=i, entries=c["entries"], after=after, count=count, exit=r["exit"] if not r["timeout"] else 124,
+        ob = dict(id=i, entries=c["entries"], after=after, count=count, dir_exists=(root / "DIR").is_dir() and not (root / "DIR").is_symlink(), exit=r["exit"] if not r["timeout"] else 124,
                   outside_ok=outside_ok, contents_ok=contents_ok, stdout=out[-400:], stderr=r["err"][-400:])
         shutil.rmtree(root, ignore_errors=True)
         return ob
@@ -160,7 +161,7 @@ def run(tier, replay=None):
             shape = sorted(f"{'/'.join(e['path'])}:{e['kind']}" for e in ob["entries"])
             dirs = sorted(e["path"][0] for e in ob["entries"] if e["kind"] == "dir" and len(e["path"]) == 1 and e["path"][0].endswith(".mmm") and not e["path"][0].startswith(".mmm"))
             key = ("dir-named-mmm " if dirs and ob["exit"] != 0 else "") + "tree=" + ",".join(shape)
-            rep.violation(key, f"clean on tree {shape}: exit={ob['exit']} count={ob['count']} after={[('/'.join(e['path']), e['kind']) for e in ob['after']]}; spec: must remove {rejected[ob['id']]['must']} may remove {rejected[ob['id']]['may']}",
+            rep.violation(key, f"clean on tree {shape}: exit={ob['exit']} count={ob['count']} DIR still a directory={ob['dir_exists']} after={[('/'.join(e['path']), e['kind']) for e in ob['after']]}; spec: must remove {rejected[ob['id']]['must']} may remove {rejected[ob['id']]['may']}",
                           dict(observation=ob, spec=rejected[ob["id"]], how="materialise entries under DIR/, run `mscript clean DIR`, compare"))
     nontrivial = sum(1 for c in cases if any(e["path"][-1].count("mmm") for e in c["entries"]))
     rep.coverage = dict(
